@@ -66,13 +66,15 @@ def evalAll {ρ} (S : Sem ρ) (fuel : Nat) (vals : List ρ) (kids : List (Nat ×
 /-! ## the key -/
 
 structure KCfg where
-  /-- the class of every child is part of the key (proposed; the tree as it is: no) -/
+  /-- the class of every child is part of the key (9c2c165; before: no) -/
   cls : Bool
-  /-- composite children contribute their own key, recursively (the tree as it is: yes) -/
+  /-- composite children contribute their own key, recursively (/repo: yes) -/
   nested : Bool
   deriving Repr, DecidableEq
 
+/-- /repo before 9c2c165 ("current" when finding KF-C05-6 was made) -/
 def KCfg.current : KCfg := { cls := false, nested := true }
+/-- /repo as it is now -/
 def KCfg.proposed : KCfg := { cls := true, nested := true }
 /-- the seeded change C05-2 -/
 def KCfg.shallow : KCfg := { cls := false, nested := false }
